@@ -1,0 +1,140 @@
+//! Instrumented `RwLock` used by `swarm.rs` when built with
+//! `--cfg aquatic_verif`.
+//!
+//! Wraps a real `parking_lot::RwLock` and reports every acquire / upgrade /
+//! release to the thread-local handler in `aquatic_common::verif`. With no
+//! handler installed on the current thread it behaves exactly like the
+//! wrapped lock.
+
+use std::any::type_name;
+use std::ops::{Deref, DerefMut};
+
+use aquatic_common::verif::{lock_event, LockOp};
+
+#[derive(Default)]
+pub struct RwLock<T>(parking_lot::RwLock<T>);
+
+impl<T> RwLock<T> {
+    fn id(&self) -> usize {
+        self as *const _ as usize
+    }
+
+    pub fn read(&self) -> RwLockReadGuard<'_, T> {
+        lock_event(self.id(), type_name::<T>(), LockOp::Read);
+
+        RwLockReadGuard {
+            guard: Some(self.0.read()),
+            id: self.id(),
+            ty: type_name::<T>(),
+        }
+    }
+
+    pub fn upgradable_read(&self) -> RwLockUpgradableReadGuard<'_, T> {
+        lock_event(self.id(), type_name::<T>(), LockOp::Upgradable);
+
+        RwLockUpgradableReadGuard {
+            guard: Some(self.0.upgradable_read()),
+            id: self.id(),
+            ty: type_name::<T>(),
+        }
+    }
+
+    pub fn write(&self) -> RwLockWriteGuard<'_, T> {
+        lock_event(self.id(), type_name::<T>(), LockOp::Write);
+
+        RwLockWriteGuard {
+            guard: Some(self.0.write()),
+            id: self.id(),
+            ty: type_name::<T>(),
+        }
+    }
+}
+
+pub struct RwLockReadGuard<'a, T> {
+    guard: Option<parking_lot::RwLockReadGuard<'a, T>>,
+    id: usize,
+    ty: &'static str,
+}
+
+impl<T> Deref for RwLockReadGuard<'_, T> {
+    type Target = T;
+
+    fn deref(&self) -> &T {
+        self.guard.as_ref().unwrap()
+    }
+}
+
+impl<T> Drop for RwLockReadGuard<'_, T> {
+    fn drop(&mut self) {
+        drop(self.guard.take());
+
+        lock_event(self.id, self.ty, LockOp::ReleaseRead);
+    }
+}
+
+pub struct RwLockUpgradableReadGuard<'a, T> {
+    guard: Option<parking_lot::RwLockUpgradableReadGuard<'a, T>>,
+    id: usize,
+    ty: &'static str,
+}
+
+impl<'a, T> RwLockUpgradableReadGuard<'a, T> {
+    pub fn upgrade(mut s: Self) -> RwLockWriteGuard<'a, T> {
+        lock_event(s.id, s.ty, LockOp::Upgrade);
+
+        let inner = s.guard.take().unwrap();
+        let (id, ty) = (s.id, s.ty);
+
+        ::std::mem::forget(s);
+
+        RwLockWriteGuard {
+            guard: Some(parking_lot::RwLockUpgradableReadGuard::upgrade(inner)),
+            id,
+            ty,
+        }
+    }
+}
+
+impl<T> Deref for RwLockUpgradableReadGuard<'_, T> {
+    type Target = T;
+
+    fn deref(&self) -> &T {
+        self.guard.as_ref().unwrap()
+    }
+}
+
+impl<T> Drop for RwLockUpgradableReadGuard<'_, T> {
+    fn drop(&mut self) {
+        drop(self.guard.take());
+
+        lock_event(self.id, self.ty, LockOp::ReleaseUpgradable);
+    }
+}
+
+pub struct RwLockWriteGuard<'a, T> {
+    guard: Option<parking_lot::RwLockWriteGuard<'a, T>>,
+    id: usize,
+    ty: &'static str,
+}
+
+impl<T> Deref for RwLockWriteGuard<'_, T> {
+    type Target = T;
+
+    fn deref(&self) -> &T {
+        self.guard.as_ref().unwrap()
+    }
+}
+
+impl<T> DerefMut for RwLockWriteGuard<'_, T> {
+    fn deref_mut(&mut self) -> &mut T {
+        self.guard.as_mut().unwrap()
+    }
+}
+
+impl<T> Drop for RwLockWriteGuard<'_, T> {
+    fn drop(&mut self) {
+        drop(self.guard.take());
+
+        lock_event(self.id, self.ty, LockOp::ReleaseWrite);
+    }
+}
